@@ -75,6 +75,7 @@ template<bool iomode> void CustomTabulated::read(std::istream &is){
         is >> T;
         if (!(T.compare("levels:") == 0)){ throw std::invalid_argument("ERROR: wrong file format of custom tables on line 2"); }
         is >> num_levels;
+        if (is.fail() || (num_levels < 0)){ throw std::invalid_argument("ERROR: wrong file format of custom tables, invalid number of levels"); }
 
         num_nodes.resize(num_levels);
         precision.resize(num_levels);
